@@ -27,10 +27,12 @@ type scen struct {
 	Name   string   `json:"name"`
 	Spec   string   `json:"spec"`
 	N      int      `json:"n"`
-	Round  int      `json:"round"`  // the broadcast round in which the equivocation happens
-	Equiv  string   `json:"equiv"`  // equivocating party
-	Group2 []string `json:"group2"` // honest parties that receive the second payload
-	Mode   string   `json:"mode"`   // own: later messages carry the equivocator's own echo hash; tailored: each recipient gets the hash it expects; nil: no hash
+	Round  int      `json:"round"`            // the broadcast round in which the equivocation happens
+	Equiv  string   `json:"equiv"`            // equivocating party
+	Group2 []string `json:"group2"`           // honest parties that receive the second payload
+	Mode   string   `json:"mode"`             // own: later messages carry the equivocator's own echo hash; tailored: each recipient gets the hash it expects; nil: no hash
+	Proto  string   `json:"proto,omitempty"`  // real protocol under a twin equivocator (real.go); empty: vproto
+	Search string   `json:"search,omitempty"` // full | dev<k> (real protocols)
 }
 
 var ids = []party.ID{"a", "b", "c", "d"}
@@ -255,9 +257,18 @@ func main() {
 	}
 	if vkit.LoadReplay(&rp) {
 		ns := build(rp.Scen)
-		w, err := ns.Replay(rp.History)
 		var e, o int64
-		vs := checker(rp.Scen, &e, &o).State(w, rp.History)
+		ck := checker(rp.Scen, &e, &o)
+		if rp.Scen.Proto != "" {
+			var err error
+			if ns, err = buildReal(rp.Scen); err != nil {
+				fmt.Println(err)
+				os.Exit(2)
+			}
+			ck = realChecker(rp.Scen, ns, &e, &o)
+		}
+		w, err := ns.Replay(rp.History)
+		vs := ck.State(w, rp.History)
 		fmt.Println("history:\n ", strings.Join(rp.History, "\n  "), "\nreplay error:", err, "\nstatus:", w.Status())
 		for _, v := range vs {
 			fmt.Println("VIOLATION", v.Sig, v.Detail)
@@ -267,16 +278,41 @@ func main() {
 		}
 		return
 	}
-	var echo, other int64
+	var echo, other, rEcho, rOther int64
 	nScen := 0
-	for i, sc := range scenarios() {
-		if !vkit.Want(sc.Name) || !vkit.Mine(i) {
+	all := append(scenarios(), realScenarios()...)
+	for i, sc := range all {
+		if !vkit.Want(sc.Name) {
 			continue
 		}
-		ns := build(sc)
-		st := ns.Search(checker(sc, &echo, &other), 0, vkit.Deadline(60*time.Second, 10*time.Minute))
+		dev := strings.HasPrefix(sc.Search, "dev")
+		if !dev && !vkit.Mine(i) {
+			continue // a full search runs in one process; deviation-bounded ones are sharded inside
+		}
+		var st *netsim.Stats
+		bound := "all schedules"
+		if sc.Proto == "" {
+			ns := build(sc)
+			st = ns.Search(checker(sc, &echo, &other), 0, vkit.Deadline(60*time.Second, 10*time.Minute))
+		} else {
+			ns, err := buildReal(sc)
+			if err != nil {
+				res.Hard(sc.Name + ": " + err.Error())
+				continue
+			}
+			ck := realChecker(sc, ns, &rEcho, &rOther)
+			if dev {
+				var k int
+				fmt.Sscanf(sc.Search, "dev%d", &k)
+				bound = fmt.Sprintf("<=%d departures from FIFO", k)
+				st = ns.Deviations(k, ck, vkit.Mine, vkit.Deadline(120*time.Second, 30*time.Minute))
+			} else {
+				st = ns.Search(ck, 0, vkit.Deadline(120*time.Second, 20*time.Minute))
+			}
+			fmt.Fprintf(os.Stderr, "%-60s states=%-8d trans=%-9d sinks=%-7d complete=%v viol=%d %.1fs\n", sc.Name, st.States, st.Transitions, st.Sinks, st.Complete, len(st.Violations), st.WallS)
+		}
 		nScen++
-		res.AddScenario(vkit.Scenario{Name: sc.Name, Bound: "all schedules", Executions: st.Sinks, States: st.States, Transitions: st.Transitions, MaxDepth: st.MaxDepth, Outcomes: st.Outcomes, Complete: st.Complete, WallS: st.WallS})
+		res.AddScenario(vkit.Scenario{Name: sc.Name, Bound: bound, Executions: st.Sinks, States: st.States, Transitions: st.Transitions, MaxDepth: st.MaxDepth, Outcomes: st.Outcomes, Complete: st.Complete, WallS: st.WallS})
 		for _, v := range st.Violations {
 			if strings.HasPrefix(v.Sig, "harness|") {
 				res.Hard(sc.Name + ": " + v.Sig + " " + v.Detail)
@@ -292,5 +328,7 @@ func main() {
 	res.Nontrivial = res.States
 	res.Extra["sinks_decided_by_echo_check"] = echo
 	res.Extra["sinks_without_echo_failure"] = other
+	res.Extra["real_protocol_sinks_decided_by_echo_check"] = rEcho
+	res.Extra["real_protocol_sinks_without_echo_failure"] = rOther
 	res.Finish()
 }
